@@ -432,3 +432,28 @@ mutant("c16-random-cancel-any", "C16", (RAND, "                        if (i.is_
 mutant("c16-noise-wrong-vol", "C16", (NOISE, "                    true => env\n                        .place_order(Side::Bid, self.params.trade_vol, *trader_id, None)\n                        .unwrap(),", "                    true => env\n                        .place_order(Side::Bid, *trader_id, self.params.trade_vol, None)\n                        .unwrap(),"), expect="ownership")
 mutant("c16-market-agent-other-asset-mid", "C16", (NOISE, "        let mid_price = env.get_market().get_order_book(self.asset).mid_price();", "        let mid_price = env.get_market().get_order_book(0).mid_price();"), expect="ownership")
 mutant("c16-sell-on-bid-side", "C16", (COMMON, "    env.place_order(asset, Side::Ask, trade_vol, trader_id, Some(price))", "    env.place_order(asset, Side::Bid, trade_vol, trader_id, Some(price))"), expect="direction")
+
+# ------------------------------------------------------------------------------- C18
+mutant("c18-best-bid-vol-ask", "C18", (PYOB, "    pub fn best_bid_vol(&self) -> Vol {\n        self.0.bid_best_vol()", "    pub fn best_bid_vol(&self) -> Vol {\n        self.0.ask_best_vol()"), expect=["qualifier", "forward"])
+mutant("c18-vol-trader-swapped", "C18", (PYOB, "let order_id = self.0.create_and_place_order(side, vol, trader_id, price);", "let order_id = self.0.create_and_place_order(side, trader_id, vol, price);"), expect="forward")
+mutant("c18-false-is-bid", "C18", (PYSS, "        let side = match bid {\n            true => Side::Bid,\n            false => Side::Ask,\n        };", "        let side = match bid {\n            true => Side::Ask,\n            false => Side::Bid,\n        };"), expect="side")
+mutant("c18-cast-order-swapped", "C18", (PYTY, "        order.vol,\n        order.start_vol,", "        order.start_vol,\n        order.vol,"), expect="layout")
+mutant("c18-status-codes-shifted", "C18", ("crates/order_book/src/types.rs", "            Status::Filled => 2,\n            Status::Cancelled => 3,", "            Status::Filled => 3,\n            Status::Cancelled => 2,"), expect="status")
+mutant("c18-stepenv-best-ask-level1", "C18", (PYSS, "        self.env.level_2_data().ask_price_levels[0].0", "        self.env.level_2_data().ask_price_levels[1].0"), expect="qualifier")
+mutant("c18-stepenv-bid-ask-swapped", "C18", (PYSS, "            self.env.level_2_data().bid_price,\n            self.env.level_2_data().ask_price,\n        )", "            self.env.level_2_data().ask_price,\n            self.env.level_2_data().bid_price,\n        )"), expect="qualifier")
+mutant("c18-error-swallowed-after-effect", "C18", (PYSS, "        let order_id = self.env.place_order(side, vol, trader_id, price);\n\n        match order_id {", "        let order_id = self.env.place_order(side, vol, trader_id, price);\n        if order_id.is_err() {\n            self.env.disable_trading();\n        }\n\n        match order_id {"), expect=["forward", "errors"])
+mutant("c18-cast-trade-ids-swapped", "C18", (PYTY, "        trade.active_order_id,\n        trade.passive_order_id,", "        trade.passive_order_id,\n        trade.active_order_id,"), expect="layout")
+mutant("c18-modify-args-swapped", "C18", (PYOB, "        self.0.modify_order(order_id, new_price, new_vol);", "        self.0.modify_order(order_id, new_vol, new_price);"), expect="forward")
+mutant("c18-i64-param", "C18", (PYOB, "    pub fn set_time(&mut self, t: Nanos) {\n        self.0.set_time(t);", "    pub fn set_time(&mut self, t: i64) {\n        self.0.set_time(t as Nanos);"), expect=["param-types", "forward"])
+
+# ------------------------------------------------------------------------------- C19
+mutant("c19-totals-transposed", "C19", (PYNP, "            data.bid_vol,\n            data.ask_vol,\n            data.bid_price_levels[0].0,", "            data.ask_vol,\n            data.bid_vol,\n            data.bid_price_levels[0].0,"), expect="layout")
+mutant("c19-missing-trade-vol", "C19", (PYSS, "        let data_vec = [\n            self.env.get_orderbook().get_trade_vol(),\n            data.bid_price,", "        let data_vec = [\n            data.bid_price,"), expect="layout")
+mutant("c19-column-arr-time", "C19", ("src/bourse/data_processing.py", '        "arr_time",', '        "arr time",'), expect="columns")
+mutant("c19-level-order", "C19", (PYSS, "            data_vec.push(data.bid_price_levels[i].1);\n            data_vec.push(data.ask_price_levels[i].0);", "            data_vec.push(data.ask_price_levels[i].0);\n            data_vec.push(data.bid_price_levels[i].1);"), expect="layout")
+mutant("c19-nine-levels", "C19", (PYNP, "        for i in 0..10 {\n            data_vec.push(data.bid_price_levels[i].0);", "        for i in 0..9 {\n            data_vec.push(data.bid_price_levels[i].0);"), expect="layout")
+mutant("c19-dict-n-ask-from-bid", "C19", (PYSS, '                format!("n_ask_{i}"),\n                data.orders_at_levels.1[i].to_pyarray(py),', '                format!("n_ask_{i}"),\n                data.orders_at_levels.0[i].to_pyarray(py),'), expect="dict")
+mutant("c19-dict-key-renamed", "C19", (PYNP, '("ask_vol".to_string(), data.volumes.1.to_pyarray(py)),', '("ask_volume".to_string(), data.volumes.1.to_pyarray(py)),'), expect="dict")
+mutant("c19-dict-family-dropped", "C19", (PYSS, "        py_data.extend(bid_orders);\n        py_data.extend(ask_orders);", "        py_data.extend(bid_orders);"), expect="dict")
+mutant("c19-trade-columns-swapped", "C19", ("src/bourse/data_processing.py", 'columns = ["time", "side", "price", "vol", "active_id", "passive_id"]', 'columns = ["time", "side", "vol", "price", "active_id", "passive_id"]'), expect="columns")
+mutant("c19-touch-count-vol", "C19", (PYNP, "            data.bid_price_levels[0].0,\n            data.bid_price_levels[0].1,\n            data.ask_price_levels[0].0,\n            data.ask_price_levels[0].1,\n        ];", "            data.bid_price_levels[0].0,\n            data.bid_price_levels[0].1,\n            data.ask_price_levels[0].1,\n            data.ask_price_levels[0].0,\n        ];"), expect="layout")
